@@ -78,6 +78,7 @@ def run(idx: ProgramIndex, rep: Report, tier: str):
                         "KL arguments have provenance (%s, %s), expected (q, p): KL(p || q) is a different quantity" % (a, b), {"first": a, "second": b})
     rep.floor("C14-1", "KL sites", n, 4)
     prior_jitter(idx, rep)
+    point_mass_terms(idx, rep)
     # C14-2
     vs = idx.find_class("_VariationalStrategy")
     m = 0
@@ -397,16 +398,33 @@ def prior_jitter(idx: ProgramIndex, rep: Report):
     n = 0
 
     def jitters(fi, recv_test):
+        """jitter arguments of add_jitter calls whose receiver (followed through local bindings, flow-insensitively) passes recv_test"""
+        binds = {}
+        for a in ast.walk(fi.node):
+            if isinstance(a, ast.Assign) and len(a.targets) == 1 and isinstance(a.targets[0], ast.Name):
+                binds.setdefault(a.targets[0].id, []).append(a.value)
+
+        def reaches(e, depth=0, seen=None):
+            seen = seen or set()
+            if recv_test(e):
+                return True
+            for x in ast.walk(e):
+                if isinstance(x, ast.Name) and x.id in binds and x.id not in seen and depth < 5:
+                    seen.add(x.id)
+                    if any(reaches(v, depth + 1, seen) for v in binds[x.id]):
+                        return True
+            return False
+
+        def resolve(a):
+            if isinstance(a, ast.Name) and a.id in binds and len(binds[a.id]) == 1:
+                return resolve(binds[a.id][0])
+            return a
+
         out = set()
-        for path, seq in walk_paths(fi):
-            for st, env in seq:
-                if not isinstance(st, ast.stmt):
-                    continue
-                for c in (x for x in ast.walk(st) if isinstance(x, ast.Call) and isinstance(x.func, ast.Attribute) and x.func.attr == "add_jitter"):
-                    recv = inline(c.func.value, env)
-                    if recv_test(recv):
-                        a = c.args[0] if c.args else next((k.value for k in c.keywords if k.arg == "jitter_val"), None)
-                        out.add("<add_jitter default>" if a is None else " ".join(src(inline(a, env)).split()))
+        for c in (x for x in ast.walk(fi.node) if isinstance(x, ast.Call) and isinstance(x.func, ast.Attribute) and x.func.attr == "add_jitter"):
+            if reaches(c.func.value):
+                a = c.args[0] if c.args else next((k.value for k in c.keywords if k.arg == "jitter_val"), None)
+                out.add("<add_jitter default>" if a is None else " ".join(src(resolve(a)).split()))
         return out
 
     def is_zz_block(e):
@@ -437,3 +455,31 @@ def prior_jitter(idx: ProgramIndex, rep: Report):
                 "both regularise K_ZZ with %s" % sorted(jf) if ok else
                 "prior_distribution adds %s to K_ZZ but forward adds %s: the KL is taken against another p(u) than the one q(f) is conditioned on (and training mode, which memoises forward's p(u), disagrees with evaluation mode)" % (sorted(jp), sorted(jf)), {"forward": sorted(jf), "prior_distribution": sorted(jp)})
     rep.floor("C14-9", "strategies regularising K_ZZ in both places", n, 1)
+
+
+# ---- C14-10 --------------------------------------------------------------------------------------------------------
+def point_mass_terms(idx: ProgramIndex, rep: Report):
+    """`kl_divergence(Delta(m), p)` is registered as -log p(m): a log density, not a divergence.  A strategy that *builds* a point mass
+    from the variational mean and adds its "KL" to a genuine KL term (KL(Delta(m) || p) + KL(N(0, S) || p)) therefore reports
+    KL(N(m, S) || p) plus the normalising constant of p ((M/2) log 2 pi for a whitened prior) unless it removes that constant again."""
+    rep.rule("C14-10", "a KL assembled from parts contains no point-mass term built from the variational mean (its value is a log density and adds the prior's normalising constant)")
+    vs = idx.find_class("_VariationalStrategy")
+    n = 0
+    for cls in sorted(idx.subclasses(vs), key=lambda c: c.qualname):
+        kl = cls.methods.get("kl_divergence")
+        if kl is None:
+            continue
+        n += 1
+        deltas = {a.targets[0].id for a in ast.walk(kl.node) if isinstance(a, ast.Assign) and len(a.targets) == 1 and isinstance(a.targets[0], ast.Name)
+                  and isinstance(a.value, ast.Call) and (chain(a.value.func) or "").split(".")[-1] == "Delta"}
+        probs = []
+        for c in calls_in(kl.node):
+            cn = chain(c.func) or ""
+            if cn.split(".")[-1] == "kl_divergence" and len(c.args) == 2 and not cn.startswith("self") and not cn.startswith("super"):
+                a0 = c.args[0]
+                if (isinstance(a0, ast.Name) and a0.id in deltas) or (isinstance(a0, ast.Call) and (chain(a0.func) or "").split(".")[-1] == "Delta"):
+                    compensated = any("math.pi" in src(x) or "log(2" in src(x) for x in ast.walk(kl.node) if isinstance(x, (ast.BinOp, ast.Call)))
+                    if not compensated:
+                        probs.append("`%s` (line %d) adds -log p(mean) as if it were a divergence: the total exceeds KL(N(m, S) || p) by the prior's normalising constant, so q(u) = p(u) does not give KL = 0" % (" ".join(src(c).split())[:60], c.lineno))
+        rep.add("C14-10", "%s:%s.kl_divergence" % (cls.module.name, cls.qualname), kl.where, not probs, "no point-mass term" if not probs else "; ".join(probs), {})
+    rep.floor("C14-10", "kl_divergence implementations of strategies", n, 4)
